@@ -1,4 +1,5 @@
 void harness(void) {
+  VERIF_PROLOGUE();
   uint64_t x;
   popcnt(x);
   VERIF_REACHABLE();
